@@ -17,6 +17,7 @@ import (
 	_ "cuelang.org/go/internal/verif/h/c20"
 	_ "cuelang.org/go/internal/verif/h/c13"
 	_ "cuelang.org/go/internal/verif/h/c15"
+	_ "cuelang.org/go/internal/verif/h/c14"
 	_ "cuelang.org/go/internal/verif/h/c09"
 )
 
